@@ -71,6 +71,7 @@ TT1 ==
   /\ IsEvent("T1")
   /\ Trial1(Log[l].e1, Log[l].acc = 1)
   /\ Log[l].k >= k' - 1 /\ Log[l].k <= k' + 1     \* e1 within 0.01 eV of a bin edge may round either way
+  /\ Log[l].k >= 1 /\ Log[l].k <= TableSize       \* ... but the bin the code really used is a bin of the table (spthe1[k-1])
   /\ UNCHANGED parts
 
 \* the grid range of the majorant scan, as computed by the code, is the one the model prescribes
